@@ -49,6 +49,17 @@ class Obligation:
         return {"name": self.name, "kind": self.kind, "discharged": self.ok, "detail": self.detail[:400]}
 
 
+# units of the generated Lean files (translator/py2lean.py) that each property's model and theorems use
+_FILE = ["TDims", "TComposed", "TVersions", "TVlr"]
+REQUIRED_UNITS = {
+    "C01": _FILE, "C02": ["TDims", "TComposed", "TVersions", "TVlr", "TExtra", "TGeMasks"], "C03": _FILE, "C04": _FILE,
+    "C05": _FILE + ["Reader"], "C06": _FILE, "C07": ["TVersions", "TVlr", "Dims"], "C08": ["TVlr", "TExtra"],
+    "C09": ["TDims", "TComposed"], "C10": ["TDims", "TComposed"], "C11": [], "C12": ["TDims", "TComposed", "TVersions", "Dims"],
+    "C13": ["TDims", "TExtra"], "C14": ["Compression"], "C15": ["Copc", "TCopc"], "C16": [], "C17": [], "C18": [],
+    "C19": _FILE, "C20": ["GE", "TGeMasks"],
+}
+
+
 class Check:
     def __init__(self, pid, tier="quick", seed=0):
         self.pid = pid
@@ -107,7 +118,13 @@ class Check:
         self.failures.append({"what": what, "input": inp, "source": source})
 
     # ---------------------------------------------------------------- translator
-    def regen(self):
+    def regen(self, required=None):
+        """regenerate lean/LasModel/Gen/*.lean from the live package. The generated files are made of independent
+        units; the obligation of this property covers the units its model and theorems use (REQUIRED_UNITS): a unit
+        that can no longer be generated breaks the properties that rest on it, not the others (their Lean modules
+        still build against the unit's previous text)."""
+        if required is None:
+            required = REQUIRED_UNITS.get(self.pid, None)
         p = subprocess.run(
             [PY, os.path.join(VERIF, "translator", "py2lean.py")],
             capture_output=True, text=True, env=env_clean(),
@@ -119,9 +136,18 @@ class Check:
                     status = json.loads(ln)
                 except ValueError:
                     pass
-        ok = p.returncode == 0 and status is not None and status.get("ok")
-        detail = "" if ok else (json.dumps(status) if status else (p.stdout + p.stderr)[-600:])
-        self.oblige("translator: regenerate Gen/*.lean from /repo", "translation", ok, detail)
+        if status is None or "units" not in status:
+            ok, detail = False, (p.stdout + p.stderr)[-600:]
+        else:
+            units = status["units"]
+            names = list(units) if required is None else list(required)
+            failed = {u: units.get(u, {"ok": False, "error": "unit not generated"}) for u in names if not units.get(u, {}).get("ok")}
+            ok = not failed
+            detail = "" if ok else json.dumps(failed)[:800]
+            others = [u for u in units if not units[u].get("ok") and u not in names]
+            if others:
+                self.count("translator_units_failed_not_used_by_this_property:" + ",".join(others))
+        self.oblige("translator: regenerate the units of Gen/*.lean this property rests on from /repo", "translation", ok, detail)
         self.checker_cmds.append("python translator/py2lean.py")
         return ok
 
